@@ -139,8 +139,85 @@ impl Drop for RecWatcher {
 	}
 }
 
+// ---------------------------------------------------------------- Changeable (lib/src/changeable.rs) against Fs/Changeable.v
+type Body = Vec<Value>;
+type Handle = Arc<watchexec::changeable::ChangeableFn<Body, ()>>;
+struct ChCtx {
+	handles: Mutex<std::collections::HashMap<u64, Handle>>,
+	trace: Mutex<Vec<(u64, u64)>>,
+	bad: std::sync::atomic::AtomicBool,
+	current: Mutex<Vec<u64>>,       // handles of the calls in progress (innermost last)
+}
+
+fn ch_function(ctx: &Arc<ChCtx>, f: u64) -> impl Fn(Body) + Send + Sync + 'static {
+	let ctx = ctx.clone();
+	move |body: Body| {
+		// the function named f: record the invocation (through which handle is known to the caller), then do what the script says
+		let h = *ctx.current.lock().unwrap().last().unwrap();
+		ctx.trace.lock().unwrap().push((h, f));
+		ch_run(&ctx, &body);
+	}
+}
+
+fn ch_run(ctx: &Arc<ChCtx>, ops: &[Value]) {
+	for op in ops {
+		if ctx.bad.load(std::sync::atomic::Ordering::SeqCst) {
+			return;
+		}
+		let get = |h: u64| ctx.handles.lock().unwrap().get(&h).cloned();
+		if let Some(a) = op["r"].as_array() {
+			match get(a[0].as_u64().unwrap()) {
+				Some(hd) => hd.replace(ch_function(ctx, a[1].as_u64().unwrap())),
+				None => ctx.bad.store(true, std::sync::atomic::Ordering::SeqCst),
+			}
+		} else if let Some(a) = op["c"].as_array() {
+			match get(a[0].as_u64().unwrap()) {
+				Some(hd) => { ctx.handles.lock().unwrap().insert(a[1].as_u64().unwrap(), Arc::new(watchexec::changeable::ChangeableFn::clone(&hd))); }
+				None => ctx.bad.store(true, std::sync::atomic::Ordering::SeqCst),
+			}
+		} else if let Some(a) = op["call"].as_array() {
+			let h = a[0].as_u64().unwrap();
+			match get(h) {
+				Some(hd) => {
+					ctx.current.lock().unwrap().push(h);
+					hd.call(a[1].as_array().unwrap().clone());
+					ctx.current.lock().unwrap().pop();
+				}
+				None => ctx.bad.store(true, std::sync::atomic::Ordering::SeqCst),
+			}
+		}
+	}
+}
+
+fn changeable(cases: &str) {
+	for case in read_cases(cases) {
+		let ctx = Arc::new(ChCtx { handles: Default::default(), trace: Default::default(), bad: Default::default(), current: Default::default() });
+		let h0: Handle = Arc::new(watchexec::changeable::ChangeableFn::default());
+		h0.replace(ch_function(&ctx, 0));
+		ctx.handles.lock().unwrap().insert(0, h0);
+		let (tx, rx) = std::sync::mpsc::channel();
+		let (c2, ops) = (ctx.clone(), case["ops"].as_array().unwrap().clone());
+		std::thread::spawn(move || {
+			ch_run(&c2, &ops);
+			let _ = tx.send(());
+		});
+		let res = match rx.recv_timeout(Duration::from_secs(3)) {
+			Ok(()) => if ctx.bad.load(std::sync::atomic::Ordering::SeqCst) { "badhandle" } else { "done" },
+			Err(_) => "deadlock",
+		};
+		let tr: Vec<String> = ctx.trace.lock().unwrap().iter().map(|(h, f)| format!("{h}:{f}")).collect();
+		emit(&json!({"id": case["id"], "res": res, "trace": tr}));
+	}
+	use std::io::Write;
+	let _ = std::io::stdout().flush();
+	std::process::exit(0);
+}
+
 fn main() {
 	let args: Vec<String> = std::env::args().collect();
+	if args[1] == "changeable" {
+		return changeable(&args[2]);
+	}
 	let base = PathBuf::from(&args[3]);
 	std::fs::create_dir_all(&base).unwrap();
 	*ROOT.lock().unwrap() = Some(base.clone());
